@@ -893,47 +893,104 @@ func (c *Ctx) magicRadix() {
 		return
 	}
 	n := 0
-	for _, pc := range callsTo(f, "strconv.ParseUint") {
-		base, ok := constInt(pc.Call.Args[1])
-		if !ok {
-			continue
+	// the parse-and-compare step may stand in ValidateTag once per form, or once in an unexported helper that is
+	// handed the radix and the bits per digit (readPrefix(c, tag, digits, 16, 4)): then each call site is a form
+	hosts := []*ssa.Function{f}
+	for _, site := range callsIn(f) {
+		if h := plainHelper(site.Common().StaticCallee()); h != nil && h != f && len(callsTo(h, "strconv.ParseUint")) > 0 {
+			hosts = append(hosts, h)
 		}
-		for _, rc := range callsTo(f, bocPath+".Cell.ReadUint") {
-			if !pc.Block().Dominates(rc.Block()) {
+	}
+	// the values a quantity takes: a constant, or - in a helper - the constant passed for that parameter at each
+	// call site in ValidateTag (nil: not decidable)
+	valuesOf := func(g *ssa.Function, v ssa.Value) []int64 {
+		if k, ok := constInt(v); ok {
+			return []int64{k}
+		}
+		prm, ok := stripConv(v).(*ssa.Parameter)
+		if !ok || g == f {
+			return nil
+		}
+		idx := -1
+		for i, q := range g.Params {
+			if q == prm {
+				idx = i
+			}
+		}
+		var out []int64
+		for _, site := range callsIn(f) {
+			if plainHelper(site.Common().StaticCallee()) != g || idx < 0 || idx >= len(site.Common().Args) {
 				continue
 			}
-			// nearest: no other ParseUint in between (the two tag forms are separate branches)
-			other := false
-			for _, pc2 := range callsTo(f, "strconv.ParseUint") {
-				if pc2 != pc && pc.Block().Dominates(pc2.Block()) && pc2.Block().Dominates(rc.Block()) {
-					other = true
-				}
+			k, ok := constInt(site.Common().Args[idx])
+			if !ok {
+				return nil
 			}
-			if other {
+			out = append(out, k)
+		}
+		return out
+	}
+	for _, g := range hosts {
+		for _, pc := range callsTo(g, "strconv.ParseUint") {
+			bases := valuesOf(g, pc.Call.Args[1])
+			if bases == nil {
 				continue
 			}
-			per := int64(0)
-			w := stripConv(rc.Call.Args[1])
-			if cl := callOf(w); cl != nil {
-				if bi, ok := cl.Call.Value.(*ssa.Builtin); ok && bi.Name() == "len" {
-					per = 1
+			for _, rc := range callsTo(g, bocPath+".Cell.ReadUint") {
+				if !pc.Block().Dominates(rc.Block()) {
+					continue
+				}
+				// nearest: no other ParseUint in between (the two tag forms are separate branches)
+				other := false
+				for _, pc2 := range callsTo(g, "strconv.ParseUint") {
+					if pc2 != pc && pc.Block().Dominates(pc2.Block()) && pc2.Block().Dominates(rc.Block()) {
+						other = true
+					}
+				}
+				if other {
+					continue
+				}
+				var pers []int64
+				w := stripConv(rc.Call.Args[1])
+				if cl := callOf(w); cl != nil {
+					if bi, ok := cl.Call.Value.(*ssa.Builtin); ok && bi.Name() == "len" {
+						pers = []int64{1}
+					}
+				}
+				if bo, ok := w.(*ssa.BinOp); ok && bo.Op == token.MUL {
+					for _, o := range []ssa.Value{bo.X, bo.Y} {
+						if cl := callOf(stripConv(o)); cl != nil {
+							continue // the digit count
+						}
+						if vs := valuesOf(g, o); vs != nil {
+							pers = vs
+						}
+					}
+				}
+				if bo, ok := w.(*ssa.BinOp); ok && bo.Op == token.SHL {
+					if k, ok := constInt(bo.Y); ok {
+						pers = []int64{1 << uint(k)}
+					}
+				}
+				// one check per form: constants pair up one to one, a single constant goes with every site
+				m := len(bases)
+				if len(pers) > m {
+					m = len(pers)
+				}
+				for i := 0; i < m; i++ {
+					base, per := bases[0], int64(0)
+					if i < len(bases) {
+						base = bases[i]
+					}
+					if len(pers) == 1 {
+						per = pers[0]
+					} else if i < len(pers) {
+						per = pers[i]
+					}
+					n++
+					c.check(per > 0 && per < 7 && base == 1<<uint(per), R, fmt.Sprintf("radix %d digits are compared with %d bit(s) each", base, per), pc.Pos(), "radix == 2^(bits per digit)", fmt.Sprintf("Magic.ValidateTag parses the tag digits in radix %d but reads %d bit(s) per digit from the cell: the value compared is not the one the tag spells", base, per))
 				}
 			}
-			if bo, ok := w.(*ssa.BinOp); ok && bo.Op == token.MUL {
-				if k, ok := constInt(bo.Y); ok {
-					per = k
-				}
-				if k, ok := constInt(bo.X); ok {
-					per = k
-				}
-			}
-			if bo, ok := w.(*ssa.BinOp); ok && bo.Op == token.SHL {
-				if k, ok := constInt(bo.Y); ok {
-					per = 1 << uint(k)
-				}
-			}
-			n++
-			c.check(per > 0 && per < 7 && base == 1<<uint(per), R, fmt.Sprintf("radix %d digits are compared with %d bit(s) each", base, per), pc.Pos(), "radix == 2^(bits per digit)", fmt.Sprintf("Magic.ValidateTag parses the tag digits in radix %d but reads %d bit(s) per digit from the cell: the value compared is not the one the tag spells", base, per))
 		}
 	}
 	if n < 2 {
